@@ -38,47 +38,47 @@ CLAIMS = {
          "replay, hint load) the position is the one returned by the appending / flushing / decoding call made for the record carrying exactly that key "
          "(VF1); a successful tombstone append in Delete is always followed by the index delete of the same key (PS-DEL); positional reads of the DB API "
          "dispatch on pos.Fid (VF2); every append is preceded by the size check with rotation on overflow (PS7); no active-file alias is used across a "
-         "rotation (VF7); rotation registers the outgoing file (RO1); pooled records are reset (POOL); Get results are fresh (RT2). Byte equality, chunk arithmetic and all operation sequences are not decided.", "3/C01, 2.4"),
+         "rotation (VF7); rotation registers the outgoing file (RO1); pooled records are reset (POOL); Get results are fresh (RT2); plus the frame group (writer/reader agreement, cursor bounds CD8/CD9, 64-bit offsets WD1, EOF rules, buffer single release POOL3) and the batch group (tagging, staging, BT1-BT4). Byte equality, chunk arithmetic and all operation sequences are not decided.", "3/C01, 2.4"),
  "C02": ("value-provenance + dominance rules over the replay loop, batch tagging, pool invariant; guard facts for EOF; codec agreement",
          "Decides necessary structural conditions of restart: every record a batch frames (staged and seal) carries the batch id (VF3), recovery applies "
          "tagged records only on the Type==BatchFinished edge, removes the applied entry and keeps its pending map across files (VF3c/e/f), replayed "
          "positions pair with their keys (VF1), pooled records are reset (POOL), both chunk readers guard the unsigned size conversion inside the loop "
-         "(BD2), reader errors abort Open (PS8), MMap.Close truncates to the logical size before closing (TR1), record/hint codecs agree (CD1). "
+         "(BD2), reader errors abort Open (PS8), MMap.Close truncates to the logical size before closing (TR1), record/hint codecs agree (CD1); recovery never looks at the size limit (CF2); plus the frame, batch and merge rule groups. "
          "Equality of the two dumps over histories and configurations is not decided.", "3/C02"),
  "C04": ("value-provenance (batch-id tagging), path typestates (seal ordering, Sync-batch durability), stale-alias rule",
          "Decides: staged records and the seal carry Batch.batchID before framing (VF3a/b); recovery applies tagged records only under their seal, "
          "across files (VF3c/e/f); Merge untags rewritten records (VF3d); in Commit the staged flush precedes the seal and every writing success "
          "return follows a successful seal write (PS6); with BatchOptions.Sync every success return of Commit is clean including the seal (PS1); the "
-         "seal goes to the current active file, not a stale alias (VF7); flush positions pair with staged records (VF1). All-or-nothing at every crash "
+         "seal goes to the current active file, not a stale alias (VF7); flush positions pair with staged records (VF1); a file is flushed before rotation (PS3: multi-file batches); staged slice and lookup map change together, flush loop complete, single release (BT2-BT4, POOL2). All-or-nothing at every crash "
          "instant and uniqueness of batch ids are not decided.", "3/C04"),
  "C05": ("path typestate over Batch.Put (record type), lockset batch protocol (LK8), file-id dispatch, retention analysis of Batch parameters",
          "Decides: Batch.Get's fallback read uses the file pos.Fid names (VF2); at every success return of Batch.Put the staged record is typed Normal "
          "(fresh from the reset pool or re-typed after lookup) (BT1, POOL); every exported Batch method preserves the protocol invariant "
          "(uncommitted <=> DB writer lock held) and a committed batch performs no effect (LK8/LK5); the staged slice only grows by append or is reset (SO1); "
-         "Batch.Put/Delete/Get do not retain caller slices in staged records (RT1). Equality with a layered reference map is not decided.", "3/C05"),
+         "Batch.Put/Delete/Get do not retain caller slices in staged records (RT1); a staged record is in the lookup map iff it is in the staged slice (BT4). Equality with a layered reference map is not decided.", "3/C05"),
  "C08": ("lockset / lock-protocol analysis (path-sensitive, interprocedural summaries, fresh-vs-shared contexts) + write-once table rule",
          "Decides the lock discipline the property's mechanism list names, on every path: each index update reachable from Put/Delete/batch flush "
          "holds the database writer lock continuously since its log append (LK3); an index read that decides an append lies in the same writer "
          "section (LK4); every shard container call is made under that shard's lock in a mode compatible with the writes-through-receiver summary "
          "of all three index implementations (LK7); published positions are never modified and rotated files never leave the file map while open "
-         "(TB2). Linearizability of histories itself is not decided.", "3/C08, 2.2"),
+         "(TB2); a pooled record is released once (POOL2) and the logical size only moves after a successful write (CD7: live view = recovered view after an I/O error). Linearizability of histories itself is not decided.", "3/C08, 2.2"),
  "C09": ("static race / lock-protocol analysis: Eraser-style lockset on all paths (not observed ones), atomic-consistency scan, lock-order graph, batch typestate, snapshot value-flow",
          "For every public entry point (DB, Iterator, Batch in both protocol states, the background merge goroutine, the datatype layer for pairing): "
          "every access to an inferred mutable DB/Batch field through a shared base holds the owner lock in the needed mode (LK1); no field mixes "
          "sync/atomic and plain access (LK2); no lock is released unheld or re-acquired while held, entry lockset = exit lockset on every path, "
          "NewBatch/Commit preserve the protocol invariant and a committed batch performs no effect (LK5/LK8); lock order acyclic (LK6); shard "
          "lock modes (LK7); merge flag test-and-set in one section (LK4); ListKeys/Fold/NewIterator build their result from one snapshot (VF6); "
-         "every method call on the active file holds the lock (LK10); the lock-free read path uses private buffers (LK11); scratch DBs are isolated (LK9). "
-         "Races inside DataFile/MMap internals, all run-time panics and liveness are not decided.", "3/C09, 2.2"),
+         "every method call on the active file holds the lock (LK10); the lock-free read path uses private buffers (LK11) and the I/O back-ends lock their own mutable state (LK13); pooled records and byte buffers are released once (POOL2, POOL3); scratch DBs are isolated (LK9). "
+         "Races inside DataFile internals beyond LK11/LK13, all run-time panics and liveness are not decided.", "3/C09, 2.2"),
  "C15": ("interprocedural retention / freshness analysis of byte slices (alias propagation through sub-slices, appends, stored-then-loaded fields, carrier objects; kill by later or deferred overwrite) into the btree/skiplist dependencies",
          "Decides the ownership property almost whole: for every []byte parameter of DB.Put/Delete/Get and Batch.Put/Delete/Get no alias is stored into "
          "memory that outlives the call, through library callees, all three index implementations and the dependency containers' SSA (RT1, RT3); every "
          "[]byte returned by DB.Get, Batch.Get, Iterator.Value and passed to Fold's callback originates from an allocation made during the call (RT2); "
-         "pooled records are reset before reuse (POOL). Trusted: classification of append/copy/string conversions, body-less functions.", "3/C15, 2.5"),
+         "pooled records are reset before reuse and released once, byte buffers likewise (POOL, POOL2, POOL3). Trusted: classification of append/copy/string conversions, body-less functions.", "3/C15, 2.5"),
  "C16": ("path-sensitive typestate (directory lock) over Open/Close incl. closures and defers; dominance of FS mutations by the held edge",
          "On every path of Open: the lock is taken with the non-blocking TryLock, every failure return is reached unlocked, the success return "
          "locked with the lock stored in the DB, the not-held edge returns ErrDatabaseIsUsing, and no file-system mutation primitive is reachable "
-         "before the lock is held; Close releases on every return. Inter-process races and flock(2) semantics are trusted.", "3/C16, 2.3"),
+         "before the lock is held; Close releases on every return; nothing is deleted by a name taken from a directory listing, which could be the lock file (RM1). Inter-process races and flock(2) semantics are trusted.", "3/C16, 2.3"),
  "C17": ("accounting value-flow pairing at every index update + size-check typestate + guarded-by for the counters",
          "Decides the pairing that keeps total-reclaim = sum of indexed sizes: at every index Put the new position's Size is charged to the total counter "
          "and the superseded position to reclaim under its non-nil test; at every index Delete the tombstone is charged to both and the superseded "
@@ -95,25 +95,25 @@ CLAIMS = {
          "Decides: every file kind is written through the chunk framer it is read with (CD4); Merge reports every error (PS8); a record is rewritten only if "
          "the index points exactly at it in Fid, BlockID and Offset (MG3); output ids stay strictly below the first non-participating id incl. equality (MG1); "
          "the marker id is the one captured with the participating-file snapshot (MG2); rewritten records are untagged (VF3d); marker created after hint and "
-         "all output files are closed, leftovers removed first (PS5a/f); adoption gated, restartable, complete before cleanup, same names (PS5c-g); merge flag "
+         "all output files are closed, leftovers removed marker-first (PS5a/f/j), hint file created before the scan and never removed (PS5i); scans end only on io.EOF (EOF2); adoption gated, restartable, complete before cleanup, same names (PS5c-g); merge flag "
          "test-and-set in one section and cleared only by its owner (LK4); replay skips strictly below the first-unhinted id (RP1). Equality of mappings across adoption shapes is not decided.", "3/C06"),
  "C07": ("ordering rules over Merge and the adoption function: dominance, natural-loop exit analysis, deferred-call scan, Stat-gating",
          "Decides the structural skeleton of crash safety of merge/adoption: marker last, after durable closes of hint and every output file (PS5a, PS2); "
          "leftovers of a crashed merge removed before reuse (PS5f); every adoption mutation dominated by the marker-id != 0 edge (PS5c); originals removed only "
          "while a not-yet-adopted rewritten file still exists (PS5d); merge directory removed only after the rename loops ran to completion, never deferred, "
-         "loops left only by their condition or an error (PS5e); files adopted under their own names (PS5g); marker id provenance (MG2); framed marker (CD4). "
+         "loops left only by their condition or an error (PS5e); files adopted under their own names (PS5g); marker id provenance (MG2); framed marker (CD4); one Merge at a time (merge flag, LK4); removal targets constructed, not listed (RM1). "
          "The state recovered from each intermediate directory image is not decided.", "3/C07"),
  "C10": ("type-shape / ownership tables for snapshot iterators, writes-through-receiver summaries, heap-order typestate, snapshot value-flow",
          "Decides: the three shard-iterator types own their containers (fresh allocation or Clone) (TB5); index items and positions are immutable after "
          "construction (TB2, TB2c) so shared item pointers cannot change under an iterator; observers are read-only in all implementations (TB5b); the merged "
-         "iterator re-establishes heap order after moving cursors on every path of Rewind/Seek/Next (HP1); ListKeys/Fold/NewIterator use one snapshot (VF6); "
+         "iterator re-establishes heap order after moving cursors on every path of Rewind/Seek/Next (HP1) and never loses a shard cursor (HP2); ListKeys/Fold/NewIterator use one snapshot and Fold reads by the snapshot position (VF6); "
          "iterator construction holds the shard lock in a sufficient mode (LK7). Sortedness, completeness, Seek/prefix semantics and cursor arithmetic are "
          "value dependent and not decided.", "3/C10"),
  "C14": ("sibling-agreement rules: per-implementation retention verdicts, dispatch exhaustiveness, back-end durability parity, configuration taint",
          "THIN. Relational over pairs of runs - not decided. Decided sibling-agreement conditions: all index implementations copy the key (RT3); both "
          "dispatchers cover every declared constant (TB3); both I/O back-ends flush in Sync and before close (PS2); snapshot ownership parity (TB5, TB2c); "
          "IndexType/ShardNum/FileIOType flow only into constructors, no other branch tests them (CF1); options of an open DB / live batch are never written (CFG1); heap order independent of shard count (HP1); recovery "
-         "independent of how a batch was split across files (VF3e).", "3/C14"),
+         "independent of how a batch was split across files (VF3e); the batch overflow paths keep staging intact (batch group BT1-BT4); Merge liveness compares the whole position (MG3); recovery ignores the size limit (CF2).", "3/C14"),
  "C18": ("value provenance of hint entries + typestate (one hint per rewrite) + codec agreement + adoption naming",
          "Decides: the hinted position is result #0 of the rewriting call of the same record and the key is that record's Key, written to the file opened with "
          "the hint suffix, exactly one hint per successful rewrite (VF5); hint codec agreement (CD1); the hint loader inserts key and position of one decoded "
@@ -122,11 +122,11 @@ CLAIMS = {
  "C19": ("lock-protocol pairing in the datatype layer, metadata codec agreement, type-tag table, batch tagging",
          "THIN. Reply equality with a reference model is NOT decided. Decided: on every path of every DataTypeService method each NewBatch is followed by "
          "Commit, with no database call that takes the lock in between (LK5); metadata encoder/decoder agree incl. the List-only tail (CD1); each command family "
-         "passes its own tag to the lookup, which returns the wrong-type error on the mismatch edge (TB4); the four list sites follow one half-open window convention and both cursors start equal (LIST1); structure updates are batches whose records and seal "
+         "passes its own tag to the lookup, which returns the wrong-type error on the mismatch edge and reads no other stored field before the tag matched (TB4); existence is decided by the engine error, not by the value (DT1); the four list sites follow one half-open window convention and both cursors start equal (LIST1); structure updates are batches whose records and seal "
          "are tagged and replayed under their seal (VF3).", "3/C19"),
  "C20": ("MMap size-reset typestate, backup argument/lock table, copy-completeness rule, error discipline of the copy",
          "Decides: an MMap method truncates to the logical size only when unmapped and invalidates the mapping bound (TB6); every MMap method copes with the "
-         "unmapped state (TB6b); Backup resets the active and every rotated file; its size resets and copy "
+         "unmapped state (TB6b) and touches mapping state only under the MMap lock (LK13: the source stays usable); Merge leaves originals in place and rewrites untagged (PS5, VF3d); Backup resets the active and every rotated file; its size resets and copy "
          "are dominated by the database WRITER lock; source = DirPath, destination = parameter, lock file excluded (TB7); the walk callback skips an entry "
          "only for the root / an exclusion match (CP1); copy errors propagate (PS8). Equality of the copy with the source's mapping is not decided.", "3/C20"),
 }
